@@ -14,6 +14,7 @@ import (
 	"github.com/TarsCloud/TarsGo/tars/util/endpoint"
 	"github.com/TarsCloud/TarsGo/tars/util/rtimer"
 	"github.com/TarsCloud/TarsGo/tars/util/tools"
+	"github.com/TarsCloud/TarsGo/tars/util/vhook"
 )
 
 // AdapterProxy : Adapter proxy
@@ -88,7 +89,13 @@ func (c *AdapterProxy) Recv(pkg []byte) {
 	packet, err := c.servantProxy.proto.ResponseUnpack(pkg)
 	if err != nil {
 		TLOG.Errorf("decode packet error: %v", err)
+		if vhook.Enabled {
+			vhook.At("mux.recv.bad", c, pkg)
+		}
 		return
+	}
+	if vhook.Enabled {
+		vhook.At("mux.recv.begin", c, pkg, packet)
 	}
 	if packet.IRequestId == 0 {
 		c.onPush(packet)
@@ -98,12 +105,21 @@ func (c *AdapterProxy) Recv(pkg []byte) {
 		return
 	}
 	chIF, ok := c.resp.Load(packet.IRequestId)
+	if vhook.Enabled {
+		vhook.At("mux.recv.lookup", c, pkg, packet, ok)
+	}
 	if ok {
 		ch := chIF.(chan *requestf.ResponsePacket)
 		select {
 		case ch <- packet:
+			if vhook.Enabled {
+				vhook.At("mux.recv.delivered", c, pkg, packet)
+			}
 		// after conf.ReadTimeout, release this goroutine to make sure response package is received by Tars_Invoke().
 		case <-rtimer.After(c.conf.ReadTimeout):
+			if vhook.Enabled {
+				vhook.At("mux.recv.gaveup", c, pkg, packet)
+			}
 			TLOG.Errorf("response timeout, write channel error, now time :%v, RequestId:%v",
 				time.Now().UnixNano()/1e6, packet.IRequestId)
 		}
